@@ -1,4 +1,5 @@
 //! gcmon: history engine for the collector properties (C01-C11, C14, C20).
+mod bex;
 mod cb;
 mod diff;
 mod collect;
@@ -457,6 +458,7 @@ fn main() {
         "replay" => mode_replay(&args),
         "scen" => scen::mode_scen(&args),
         "faultenum" => diff::mode_faultenum(&args),
+        "bex" => bex::mode_bex(&args),
         m => {
             eprintln!("unknown mode {}", m);
             std::process::exit(2);
